@@ -9,15 +9,14 @@ from concurrent.futures import ThreadPoolExecutor
 
 from .base import Result, V
 
-MODULES = ["TickitModel.Props.C17", "TickitModel.Props.C16"]
-THEOREMS = ["dispatch_by_tag", "dispatch_none_iff", "dispatch_perm_invariant", "dispatch_ignores_others", "select_exact", "select_unknown",
-            "select_all", "wiring_from_configs_exact", "keys_from_configs", "conn_fromInverse"]
+MODULES = ['TickitModel.Props.C17', 'TickitModel.Props.C17Codec', 'TickitModel.Props.C16']
+THEOREMS = ['dispatch_by_tag', 'dispatch_none_iff', 'dispatch_perm_invariant', 'dispatch_ignores_others', 'select_exact', 'select_unknown', 'select_all', 'wiring_from_configs_exact', 'keys_from_configs', 'conn_fromInverse', 'config_roundtrip', 'unknown_tag_rejected', 'decode_depends_on_tag_only']
 ANCHORS = ["src/tickit/utils/configuration/tagged_union.py", "src/tickit/utils/configuration/loading.py", "src/tickit/core/components/component.py",
            "src/tickit/core/management/event_router.py", "src/tickit/core/simulation.py", "src/tickit/core/components/system_component.py"]
 TECHNIQUE = "Lean 4 theorems over the tag-dispatch/selection/wiring-from-configs model (class chosen by tag only, independent of registry order and of look-alike classes; unknown tag rejected; exact selection; wiring = declared inputs) + differential run of read_configs/build_simulation in fresh interpreters over generated classes, import orders and nested entries"
 LEVEL_TEXT = ("PARTIAL. Proved (model): the class chosen for an entry is the registered class whose tag equals the entry's type, for every registry order "
               "and regardless of other classes with the same field signature; an unknown tag is rejected; a requested subset yields exactly those "
-              "components, an unknown name an error; the inverse wiring built from configs has exactly the declared connections. pydantic's "
+              "components, an unknown name an error; the inverse wiring built from configs has exactly the declared connections; encoding a well-formed entry tree (asdict) and decoding it by tag gives back the same tree at any nesting depth, unknown tags are rejected, and decoding depends on the tag's class only. pydantic's "
               "discriminated-union machinery and PyYAML are parameters of the model, so the weight lies on the correspondence: config classes are "
               "generated at run time (several with identical field signatures, in one or several modules), imported in every order (<= 3 classes "
               "quick, 4 thorough) in fresh interpreters, entries nested to depth 3 with arbitrary wiring, loaded through the real read_configs / "
